@@ -236,6 +236,20 @@ class ArfProp(Prop):
                                 cancels = [[]]
                             for cancel in cancels:
                                 cases.append(mk_arf(size, which, [], 0, st, script, min(len(st) + 2, 5), 0, cancel, "pending-subsets"))
+        # long calls: one frame that needs many reads in a single call (1..3-byte chunks), with Pending sprinkled in;
+        # the cancel list is longer than the reader's Pendings so that ANY pending point of the future is a cancellation point
+        for _ in range(300 if tier == "quick" else 6000):
+            size = rng.choice([32, 64, 64, 256])
+            n = rng.randrange(12, min(size, 60))
+            st = [rng.choice([97, 98, 99, 120]) for _ in range(n)] + [10] + [rng.choice([97, 10]) for _ in range(rng.randrange(0, 4))]
+            script = []
+            for _ in range(rng.randrange(n // 2, n + 8)):
+                if rng.random() < 0.2:
+                    script.append((3, 0, 0))
+                script.append((0, rng.choice([1, 1, 1, 2, 3]), 0))
+            npend = sum(1 for t in script if t[0] == 3)
+            cancel = ([rng.choice([0, 1]) for _ in range(npend)] + [1, 1, 1, 1]) if self.with_cancel else []
+            cases.append(mk_arf(size, 0, [], 0, st, script, 3, 0, cancel, "long-call"))
         for _ in range(2500 if tier == "quick" else 60000):
             which = rng.choice([0, 0, 1, 2, 5])
             size = rng.choice([2, 3, 4, 5, 8, 16])
